@@ -3,7 +3,7 @@
 R08-a format_file pipeline order on one buffer · R08-b newline-style mapping table; Auto detection operand
 """
 from absint import explore, vkey, variant_name, TooManyPaths
-from common import short
+from common import short, bool_branches
 
 import re
 
@@ -127,7 +127,22 @@ def run(ctx):
                 d = f.derived_from(c.args[2][1][0])
                 from_map = [cc for cc in d["calls"] if cc.name.endswith("SnippetProvider::entire_snippet")
                             or cc.name.endswith("snippet_provider")]
-                ok = not from_map
+                # the normalised text may stand in when the choice is governed by what the source map recorded about the
+                # raw input (SourceFile.normalized_pos: where a `\r` was dropped): the operand is then switched on a query
+                # of that record
+                from common import reads_field_transitively
+                raw_query = []
+                for cc in f.calls():
+                    h = p.fns.get(cc.resolved or "")
+                    if h is not None and h.crate == f.crate and reads_field_transitively(p, h, "SourceFile", "normalized_pos", depth=1):
+                        raw_query.append(cc)
+                governed = False
+                for q in raw_query:
+                    if not q.dest[1]:
+                        for (sw, t_true, t_false) in bool_branches(f, q.dest[0]):
+                            if c.bb in f.reachable(t_true) and c.bb in f.reachable(t_false):
+                                governed = True
+                ok = not from_map or governed
                 key = "apply_newline_style: Auto detection reads source-map text"
                 r.instance(B, key, "ok" if ok else "violation", c.loc(), "operand derives from %s" % [short(x.name) for x in d["calls"]][:4])
                 if not ok:
